@@ -105,67 +105,123 @@ fn ret_expr(ret: &str) -> Option<&'static str> {
     })
 }
 
-fn main() {
-    let repo = std::env::var("VERIF_REPO").unwrap_or_else(|_| "/repo".to_string());
-    let dir = PathBuf::from(&repo).join("rspirv/dr/build");
-    let files = [
-        "mod.rs",
-        "autogen_type.rs",
-        "autogen_constant.rs",
-        "autogen_annotation.rs",
-        "autogen_terminator.rs",
-        "autogen_debug.rs",
-        "autogen_norm_insts.rs",
-    ];
-    let mut methods: Vec<Method> = vec![];
-    for f in files {
-        let p = dir.join(f);
-        println!("cargo:rerun-if-changed={}", p.display());
-        let src = std::fs::read_to_string(&p).unwrap_or_else(|e| panic!("{}: {}", p.display(), e));
-        let ast = syn::parse_file(&src).unwrap_or_else(|e| panic!("{}: {}", p.display(), e));
-        for item in ast.items {
-            let syn::Item::Impl(imp) = item else { continue };
-            if imp.trait_.is_some() {
-                continue;
+/// Public methods of every inherent `impl .. Builder` block found in `items` (descending into
+/// inline modules).
+fn collect(items: Vec<syn::Item>, file: &str, methods: &mut Vec<Method>) {
+    for item in items {
+        match item {
+            syn::Item::Mod(m) => {
+                if let Some((_, inner)) = m.content {
+                    collect(inner, file, methods);
+                }
             }
-            if norm(&imp.self_ty.to_token_stream().to_string()) != "Builder" {
-                continue;
-            }
-            for it in imp.items {
-                let syn::ImplItem::Fn(func) = it else { continue };
-                if !matches!(func.vis, syn::Visibility::Public(_)) {
+            syn::Item::Impl(imp) => {
+                if imp.trait_.is_some() {
                     continue;
                 }
-                let mut receiver = String::new();
-                let mut params = vec![];
-                for inp in &func.sig.inputs {
-                    match inp {
-                        syn::FnArg::Receiver(r) => {
-                            receiver = norm(&r.to_token_stream().to_string());
-                        }
-                        syn::FnArg::Typed(t) => {
-                            let n = norm(&t.pat.to_token_stream().to_string());
-                            let ty = norm(&t.ty.to_token_stream().to_string());
-                            params.push((n, ty));
+                // `Builder`, `dr::Builder`, `super::Builder`, `crate::dr::Builder` ...
+                let ty = norm(&imp.self_ty.to_token_stream().to_string());
+                if ty.rsplit("::").next() != Some("Builder") {
+                    continue;
+                }
+                for it in imp.items {
+                    let syn::ImplItem::Fn(func) = it else { continue };
+                    if !matches!(func.vis, syn::Visibility::Public(_)) {
+                        continue;
+                    }
+                    let mut receiver = String::new();
+                    let mut params = vec![];
+                    for inp in &func.sig.inputs {
+                        match inp {
+                            syn::FnArg::Receiver(r) => {
+                                receiver = norm(&r.to_token_stream().to_string());
+                            }
+                            syn::FnArg::Typed(t) => {
+                                let n = norm(&t.pat.to_token_stream().to_string());
+                                let ty = norm(&t.ty.to_token_stream().to_string());
+                                params.push((n, ty));
+                            }
                         }
                     }
+                    let ret = match &func.sig.output {
+                        syn::ReturnType::Default => String::new(),
+                        syn::ReturnType::Type(_, t) => norm(&t.to_token_stream().to_string()),
+                    };
+                    methods.push(Method { name: func.sig.ident.to_string(), file: file.to_string(), receiver, params, ret });
                 }
-                let ret = match &func.sig.output {
-                    syn::ReturnType::Default => String::new(),
-                    syn::ReturnType::Type(_, t) => norm(&t.to_token_stream().to_string()),
-                };
-                methods.push(Method {
-                    name: func.sig.ident.to_string(),
-                    file: f.to_string(),
-                    receiver,
-                    params,
-                    ret,
-                });
             }
+            _ => {}
+        }
+    }
+}
+
+fn walk(dir: &std::path::Path, out: &mut Vec<PathBuf>) {
+    let Ok(rd) = std::fs::read_dir(dir) else { return };
+    let mut entries: Vec<PathBuf> = rd.filter_map(|e| e.ok().map(|e| e.path())).collect();
+    entries.sort();
+    for p in entries {
+        let name = p.file_name().and_then(|n| n.to_str()).unwrap_or("").to_string();
+        if p.is_dir() {
+            if name != "target" && name != "tests" && !name.starts_with('.') {
+                walk(&p, out);
+            }
+        } else if name.ends_with(".rs") {
+            out.push(p);
+        }
+    }
+}
+
+/// Signatures of the structural methods the harness drives by name. They are stable public API; if a
+/// method is spelled by a macro (and therefore invisible to a syntactic scan) its call site is made
+/// from this table instead - a real change of the signature then fails to compile (exit 2).
+const CORE: &[(&str, &[(&str, &str)], &str)] = &[
+    ("begin_function", &[("return_type", "spirv::Word"), ("function_id", "Option<spirv::Word>"), ("control", "spirv::FunctionControl"), ("function_type", "spirv::Word")], "BuildResult<spirv::Word>"),
+    ("end_function", &[], "BuildResult<()>"),
+    ("begin_block", &[("label_id", "Option<spirv::Word>")], "BuildResult<spirv::Word>"),
+    ("function_parameter", &[("result_type", "spirv::Word")], "BuildResult<spirv::Word>"),
+    ("ret", &[], "BuildResult<()>"),
+    ("nop", &[], "BuildResult<()>"),
+];
+
+fn main() {
+    let repo = std::env::var("VERIF_REPO").unwrap_or_else(|_| "/repo".to_string());
+    // every source file of the rspirv crate: the Builder's methods may live in any module or be
+    // pulled in by include!; where they are written does not matter
+    let root = PathBuf::from(&repo).join("rspirv");
+    println!("cargo:rerun-if-changed={}", root.display());
+    let mut files = vec![];
+    walk(&root, &mut files);
+    let mut methods: Vec<Method> = vec![];
+    for p in &files {
+        let Ok(src) = std::fs::read_to_string(p) else { continue };
+        if !src.contains("Builder") {
+            continue;
+        }
+        // fragments that are not a sequence of items (none today) are skipped, not fatal
+        let Ok(ast) = syn::parse_file(&src) else { continue };
+        let file = p.file_name().and_then(|n| n.to_str()).unwrap_or("").to_string();
+        collect(ast.items, &file, &mut methods);
+    }
+    // keep the order the inventory had when the regression replays were stored (they index into it):
+    // the files of dr/build in that order first, anything found elsewhere after them
+    const OLD_ORDER: [&str; 7] = ["mod.rs", "autogen_type.rs", "autogen_constant.rs", "autogen_annotation.rs", "autogen_terminator.rs", "autogen_debug.rs", "autogen_norm_insts.rs"];
+    methods.sort_by_key(|m| OLD_ORDER.iter().position(|f| *f == m.file).unwrap_or(OLD_ORDER.len()));
+    // one entry per name (an inherent method name is unique on the type)
+    let mut seen = std::collections::BTreeSet::new();
+    methods.retain(|m| seen.insert(m.name.clone()));
+    for (name, params, ret) in CORE {
+        if !seen.contains(*name) {
+            methods.push(Method {
+                name: name.to_string(),
+                file: "<not spelled out in the sources: signature from the harness's table>".to_string(),
+                receiver: "&mutself".to_string(),
+                params: params.iter().map(|(n, t)| (n.to_string(), norm(t))).collect(),
+                ret: norm(ret),
+            });
         }
     }
     let mut out = String::new();
-    out.push_str("// generated by build.rs from /repo/rspirv/dr/build/*.rs -- do not edit\n");
+    out.push_str("// generated by build.rs from the inherent impl blocks of dr::Builder found under /repo/rspirv -- do not edit\n");
     let mut table = String::new();
     for m in &methods {
         let takes: Option<Vec<String>> = m.params.iter().map(|(_, t)| take_expr(t)).collect();
